@@ -44,7 +44,10 @@
     `respacing_reads_alike`); the parser does not look beyond a `)` it does not consume
     (`parser_stops_at_closing_parenthesis`), so parentheses around a whole expression do not change
     the tree (`redundant_parentheses`); the fuel bound is never the reason for "no parse"
-    (`parser_fuel_adequate`) and abbreviations read as their expansions (`abbreviations_are_expansions`).
+    (`parser_fuel_adequate`) and abbreviations read as their expansions (`abbreviations_are_expansions`);
+    the ABBREVIATED spelling of every well-formed tree (`child::` omitted, `@`, `.`, `..`, `//` wherever XPath
+    defines them) is read back as that tree, hence like the unabbreviated one
+    (`abbreviated_spelling_roundtrip`, `abbreviated_equals_unabbreviated`).
   NOT proved: that gogll's generated DFA and GLL engine implement that lexer and parser (differential),
   and completeness of the model parser for non-canonical spellings (differential: flag `ast`).
 -/
@@ -59,6 +62,7 @@ import Proofs.Lemmas.LexSound
 import Proofs.Lemmas.ParseFuel
 import Proofs.Lemmas.ParseAbbrev
 import Proofs.Lemmas.ParseAbbrevDot
+import Proofs.Lemmas.ParseRenderAbbr
 import Proofs.Lemmas.ParseWs
 import Proofs.Lemmas.SpellRender
 
@@ -692,6 +696,73 @@ theorem abbreviations_are_expansions' (c : Cfg) (ts : Toks) (e : Expr) (h : pars
 /-- `a//@b/..` expands to 17 tokens -/
 example : (expand [⟨.ncname ['a'], false⟩, ⟨.p .dslash, true⟩, ⟨.p .at, true⟩, ⟨.ncname ['b'], true⟩,
     ⟨.p .slash, true⟩, ⟨.p .dotdot, true⟩]).length = 17 := by decide
+
+/-! ## the abbreviated syntax, completely -/
+
+/-- **abbreviated_spelling_roundtrip** — XPath's abbreviated syntax, written instead of read:
+    `renderAbbrTop` (`Xsel/Render.lean`) spells a tree with every abbreviation XPath defines — `child::`
+    omitted, `@` for `attribute::`, `.` for `self::node()`, `..` for `parent::node()`, `//` for
+    `/descendant-or-self::node()/` (the last three for steps without predicates, as XPath defines them;
+    a `descendant-or-self::node()` that is the first step of a relative path has no abbreviation),
+    recursively inside predicates and arguments.  The parser reads that spelling back as the tree it
+    came from, for EVERY well-formed tree and under every setting of the switches; no side condition on
+    names is needed: an element name directly followed by `(` would be a function call, a leading
+    `.` directly followed by digits a Number, but no spelling of a tree puts those tokens there. -/
+theorem abbreviated_spelling_roundtrip (c : Cfg) (e : Expr) (h : wfE e = true) :
+    parseToks c (renderAbbrTop e) = some (normCtx e) :=
+  Xsel.Syntax.parse_renderAbbr c e h
+
+/-- **abbreviated_equals_unabbreviated** — the abbreviated and the unabbreviated spelling of a
+    well-formed tree are read alike -/
+theorem abbreviated_equals_unabbreviated (c : Cfg) (e : Expr) (h : wfE e = true) :
+    parseToks c (renderAbbrTop e) = parseToks c (renderTop e) :=
+  Xsel.Syntax.abbreviated_equals_unabbreviated c e h
+
+/-- the tree of `//a[@k = 1]/../b/text() | .`: all five abbreviations -/
+def abbrTree : Expr :=
+  .bin .union
+    (.step (.step (.step (.step (.step .root .descendantOrSelf .node .nil) .child (.name ['a'])
+        (.cons (.bin (.cmp .eq) (.step .ctx .attribute (.name ['k']) .nil) (.num (.fin 1))) .nil))
+      .parent .node .nil) .child (.name ['b']) .nil) .child .text .nil)
+    .ctx
+
+example : wfE abbrTree = true := by decide +kernel
+
+/-- its abbreviated spelling: 18 tokens … -/
+theorem abbrTree_tokens : renderAbbrTop abbrTree =
+    [U (.p .dslash), U (.ncname ['a']), U (.p .lbrack), U (.p .at), U (.ncname ['k']), U (.p .eq),
+     U (.digits ['1']), U (.p .rbrack), U (.p .slash), U (.p .dotdot), U (.p .slash), U (.ncname ['b']),
+     U (.p .slash), U (.kw .text), U (.p .lparen), U (.p .rparen), U (.p .pipe), U (.p .dot)] := by
+  have h1 : numToks (.fin 1) = [U (.digits ['1'])] := by decide +kernel
+  simp [abbrTree, renderAbbrTop, rawAbbr, basePrefixAbbr, prefixAbbr, predsAbbr, dosAbbr, dotAbbr, axisAbbr,
+    testToks, wrap, level, opLevel, opTok, h1]
+
+theorem abbrTree_spelling : spellToks (renderAbbrTop abbrTree) =
+    " // a [ @ k = 1 ] / .. / b / text ( ) | .".toList := by
+  rw [abbrTree_tokens]; decide +kernel
+
+/-- … against 35 unabbreviated -/
+example : spellToks (renderTop abbrTree) =
+    (" / descendant-or-self :: node ( ) / child :: a [ attribute :: k = 1 ] / parent :: node ( )"
+      ++ " / child :: b / child :: text ( ) | .").toList := by
+  have h1 : numToks (.fin 1) = [U (.digits ['1'])] := by decide +kernel
+  simp [abbrTree, spellToks, renderTop, render, raw, basePrefix, renderPreds, testToks,
+    wrap, level, opLevel, opTok, h1, U, Tok.spell, Punct.chars, Kw.chars, axisText]
+
+/-- xsel reads the abbreviated string as the tree (with `.` as `self::node()`) -/
+example : parseModel " // a [ @ k = 1 ] / .. / b / text ( ) | .".toList = .ok (normCtx abbrTree) := by
+  have hl : lex lexModel " // a [ @ k = 1 ] / .. / b / text ( ) | .".toList = .ok (renderAbbrTop abbrTree) := by
+    rw [abbrTree_tokens]; decide +kernel
+  unfold parseModel
+  rw [hl]
+  simp only [abbreviated_spelling_roundtrip cfgModel abbrTree (by decide +kernel)]
+
+/-- … and so do xsel's and XPath's reading of the string as one writes it, without the canonical
+    spaces (`Expr.same`: structural equality, evaluated) -/
+example : (match parseModel "//a[@k = 1]/../b/text() | .".toList, parseSpec "//a[@k = 1]/../b/text() | .".toList with
+    | .ok e, .ok e' => Expr.same e (normCtx abbrTree) && Expr.same e' (normCtx abbrTree)
+    | _, _ => false) = true := by
+  decide +kernel
 
 /-! ## what does not matter: optional white space, redundant parentheses -/
 
